@@ -170,7 +170,8 @@ func c08ApplyDiff(l, rr map[string]any) Case {
 	L, R := anyToContainer(l), anyToContainer(rr)
 	var fail []string
 	var mods []diff.Modification
-	if pn := guard(func() { mods = *diff.Diff(L, R); diff.Apply(R, mods) }); pn != "" {
+	// (the flattened view of R is looked at before the modifications are applied: it is recomputed afterwards)
+	if pn := guard(func() { mods = *diff.Diff(L, R); _ = R.Flatten(); _ = R.Search(dom.SearchEqual(1)); diff.Apply(R, mods) }); pn != "" {
 		return Case{Kind: "applydiff", Desc: map[string]any{"l": l, "r": rr, "panic": pn}, Fail: []string{"panic in Apply(Diff): " + pn}, Nontrivial: true}
 	}
 	fl, _ := flatPlain(L)
